@@ -183,8 +183,15 @@ def section(chk: Check, max_edits: int, depth: int, cap_pairs: int = 3000):
             chk.nontrivial(("reload", e["_s"]))
     for bads in results:
         for b in bads:
-            chk.violation("B1 addon reload: %s differs from AddonReload specification" % ",".join(b["differs"]),
-                          {"kind": "b1-addonreload", "differs": b["differs"]}, b)
+            # `wire`/`escaped` are the message itself being lost or the dispatch raising: that is C07's own
+            # statement ("whatever an addon does ... exactly once", "never stops later messages").  Which version
+            # of the addon handled it (`handledBy`) is hot-reload semantics outside C07: a growth divergence.
+            if set(b["differs"]) & {"wire", "escaped"}:
+                chk.violation("B1 addon reload: %s differs from AddonReload specification" % ",".join(b["differs"]),
+                              {"kind": "b1-addonreload", "differs": b["differs"]}, b)
+            else:
+                chk.divergence("AddonReload", "B1 addon reload: %s differs from AddonReload specification" % ",".join(b["differs"]),
+                               {"kind": "b1-addonreload", "differs": b["differs"]}, b)
     pick = [e for e in g.edges if e["act"]["n"] == "Message" and e["obs"].get("checked") and e["src"]["memH"] != e["dst"]["memH"]]
     if pick:
         e = pick[0]
